@@ -95,6 +95,7 @@ type Options struct {
 	PreserveHost     bool
 	Probe            bool
 	Injectors        []reverseproxy.HeaderInjector // nil => the default three
+	LateInjectors    []reverseproxy.HeaderInjector // appended to the handler's exported HeaderInjectors field after construction (the way PreserveHost and IsProbeRequest are set)
 	MaxPrio          uint                          // 0 => math.MaxUint (only with default injectors); use MaxPrioSet for an explicit 0
 	MaxPrioSet       bool
 	IdleTimeout      time.Duration
@@ -205,6 +206,9 @@ func Start(o Options) (*Stack, error) {
 			}
 		}}, inj)
 	h.PreserveHost = o.PreserveHost
+	if len(o.LateInjectors) > 0 {
+		h.HeaderInjectors = append(h.HeaderInjectors, o.LateInjectors...)
+	}
 	if o.Probe {
 		h.IsProbeRequest = reverseproxy.IsKubernetesProbeRequest
 	}
